@@ -387,11 +387,13 @@ def main(argv=None):
                "solver": {"result": r["result"], "backend": r["backend"], "seconds": r["seconds"]},
                "model": model, "replay": rp, "smt2": r["smt2"][:20000],
                "replay_cmd": "./check %s --tier %s" % (prop, tier)}
-        if r.get("candidate") and not rp.get("reproduced"):
-            # only a CANDIDATE (a model of the hypotheses with the quantified ones dropped) and no failing input on the real code:
-            # the solvers did not decide this obligation. Undecided, never a violation.
-            unknown.append((o, dict(r, result="unknown", detail="candidate refutation without the quantified hypotheses was not "
-                                                                 "reproduced on the real code; with them: " + str(r.get("detail")))))
+        if r.get("candidate"):
+            # only a CANDIDATE (a model of the hypotheses with the quantified ones dropped): the solvers did not decide this obligation.
+            # Undecided, never a violation by itself. If the replay scenarios fail natively, that is reported below as what it is
+            # (Cxx::native-scenarios, with the failing input), not under this obligation's name.
+            unknown.append((o, dict(r, result="unknown", detail="candidate refutation only (quantified hypotheses dropped)%s; with them: %s"
+                                    % ("" if not rp.get("reproduced") else "; the replay scenarios fail natively (reported separately)",
+                                       str(r.get("detail"))))))
             continue
         json.dump(rec, open(fn, "w"), indent=1, default=str)
         violations.append((o.name, fn, bool(rp.get("reproduced"))))
